@@ -61,6 +61,10 @@ def build(rng):
     pat = []
     empties = 0
     vals = 0
+    # in a quarter of the scripts the third event of group 1 has no value at first; it is published later by assigning a new
+    # table to eventgroup.values ("set values to the current value") - from then on it belongs to every round
+    late_ev = GROUPS[1][2] if rng.random() < 0.25 else None
+    present = {ev for g in interval for ev in GROUPS[g]} - {late_ev}
     for _ in range(rng.randrange(4, 41)):
         pl = rng.choice(("new", "new", "new", "same", "same", "grid", "grid:after"))
         rank = BEFORE
@@ -107,8 +111,19 @@ def build(rng):
             if rng.random() < 0.12:
                 a["val"] = b""  # an event without payload is a legal current value
                 empties += 1
+            a["reassign"] = rng.random() < 0.3  # a new table assigned to .values instead of an update in place
+            if a["ev"] not in present:
+                # the first value of the late event: a new table, at an instant of its own
+                a["reassign"] = a["introduce"] = True
+                t, rank = t + 2.0 ** -9, BEFORE  # only ever later than the instant the expiries were settled for
+                while any(abs(exp - t) <= 4 * EPS for d in subbed.values() for exp, _v in d.values()):
+                    t += 2.0 ** -8
+                for d in subbed.values():
+                    for ep in [ep for ep, (exp, _v) in d.items() if exp <= t]:
+                        del d[ep]
+                present.add(a["ev"])
         elif r < 0.93:
-            evs = list(GROUPS[g])
+            evs = [ev for ev in GROUPS[g] if ev in present]
             rng.shuffle(evs)
             a = dict(kind="notify", g=g, evs=evs[: rng.randrange(1, len(evs) + 1)])
         elif r < 0.97 and free:
@@ -119,7 +134,7 @@ def build(rng):
         script.append((t, rank, a))
         pat.append((a["kind"], a.get("g"), a.get("ep"), tuple(a.get("evs", ())), pl))
         now = t
-    return dict(interval=interval, lat=lat, script=script, pat=tuple(pat), horizon=now + 2.5, empties=empties)
+    return dict(interval=interval, lat=lat, script=script, pat=tuple(pat), horizon=now + 2.5, empties=empties, late_ev=late_ev)
 
 
 class Run:
@@ -153,7 +168,8 @@ class Run:
         for g, interval in self.sc["interval"].items():
             eg = SV.SimpleEventgroup(svc, id=g, interval=interval)
             for ev in GROUPS[g]:
-                eg.values[ev] = b"init" + bytes([ev])
+                if ev != self.sc.get("late_ev"):
+                    eg.values[ev] = b"init" + bytes([ev])
             svc.register_eventgroup(eg)
             self.groups[g] = eg
         self.svc = svc
@@ -185,7 +201,12 @@ class Run:
                 self.unknown_unsubs += 1
                 self.svc.client_unsubscribed(sub, a["via"])
             elif k == "set":
-                self.groups[a["g"]].values[a["ev"]] = a["val"]
+                eg = self.groups[a["g"]]
+                if a.get("reassign"):
+                    eg.values = {**eg.values, a["ev"]: a["val"]} if a.get("introduce") or len(eg.values) % 2 else \
+                        {a["ev"]: a["val"], **{k2: v2 for k2, v2 in eg.values.items() if k2 != a["ev"]}}
+                else:
+                    eg.values[a["ev"]] = a["val"]
             elif k == "notify":
                 self.groups[a["g"]].notify_once(list(a["evs"]))
             elif k == "refuse":
@@ -234,6 +255,8 @@ def judge(ctx, sc, seed, replay):
     if L:
         ctx.count("latency_scripts")
     ctx.count("empty_values_set", sc.get("empties", 0))
+    if sc.get("late_ev") is not None and any(a.get("introduce") for _t, _r, a in sc["script"]):
+        ctx.count("scripts_with_an_event_published_later_by_table_assignment")
     brief = dict(latency=L, intervals=sc["interval"], script=[(t, r, a) for t, r, a in sc["script"]][:18])
     nviol = [0]
 
@@ -260,9 +283,20 @@ def judge(ctx, sc, seed, replay):
     timeline.sort(key=lambda x: (x[0], x[1]))
     S = {g: set() for g in sc["interval"]}
     sub_since = {}
-    hist = {ev: [(0.0, b"init" + bytes([ev]))] for g in sc["interval"] for ev in GROUPS[g]}
+    late_ev = sc.get("late_ev")
+    hist = {ev: ([] if ev == late_ev else [(0.0, b"init" + bytes([ev]))]) for g in sc["interval"] for ev in GROUPS[g]}
+    t_intro = next((t for t, _r, a in sc["script"] if a.get("introduce")), None)  # instant the late event gets its first value
+
+    def has_value(ev, t):
+        """True / False / None (introduced in this very instant)"""
+        if ev != late_ev:
+            return True
+        if t_intro is None or t < t_intro - L - 2 * RES:
+            return False
+        return True if t > t_intro + L + 2 * RES else None
     set_changes = {g: [(0.0, frozenset())] for g in sc["interval"]}  # (t, set after change)
     expected = collections.defaultdict(collections.Counter)  # (addr, send time) -> Counter(event)
+    optional = collections.defaultdict(collections.Counter)
     kinds = collections.Counter()
     for t, n, a in timeline:
         k = a["kind"]
@@ -272,8 +306,12 @@ def judge(ctx, sc, seed, replay):
             sub_since[(g, a["ep"])] = n
             set_changes[g].append((t, frozenset(S[g])))
             for ev in GROUPS[g]:
-                expected[(ep_addr(a["ep"]), t + L)][ev] += 1
-                kinds["initial_notifications"] += 1
+                hv = has_value(ev, t)
+                if hv:
+                    expected[(ep_addr(a["ep"]), t + L)][ev] += 1
+                    kinds["initial_notifications"] += 1
+                elif hv is None:  # published in this very instant: the order of the two calls decides
+                    optional[(ep_addr(a["ep"]), t + L)][ev] += 1
         elif k in ("unsub", "expire"):
             if k == "expire" and sub_since.get((g, a["ep"])) != a["sub_n"]:
                 continue  # re-subscribed meanwhile
@@ -349,6 +387,9 @@ def judge(ctx, sc, seed, replay):
         if miss:
             bad("initial-notification-missing", dst=key[0], at=key[1], events=sorted(miss.elements()))
         remaining[key] = have - cnt
+    for key, cnt in optional.items():
+        if key in remaining:
+            remaining[key] = remaining[key] - cnt
     for kname, v in kinds.items():
         ctx.count(kname, v)
     # 2. explicit rounds
@@ -374,7 +415,8 @@ def judge(ctx, sc, seed, replay):
     cyc_rounds = {g: [] for g in sc["interval"]}
     for t, per in sorted(by_time.items()):
         for g in sc["interval"]:
-            full = collections.Counter(GROUPS[g])
+            fulls = [collections.Counter(ev for ev in GROUPS[g] if has_value(ev, t - L) is not False),
+                     collections.Counter(ev for ev in GROUPS[g] if has_value(ev, t - L))]
             dsts = set()
             for dst, cnt in per.items():
                 part = collections.Counter({e: c for e, c in cnt.items() if ev_group[e] == g})
@@ -385,7 +427,7 @@ def judge(ctx, sc, seed, replay):
                     bad("notification-nobody-asked-for", dst=dst, at=t, events=sorted(part.elements()),
                         why="eventgroup is not cyclic and no initial/explicit notification is due")
                     continue
-                if part != full or i is None:
+                if part not in fulls or i is None:
                     bad("notification-nobody-asked-for", dst=dst, at=t, events=sorted(part.elements()),
                         why="not a complete cyclic round (one notification per event)")
                     continue
